@@ -126,8 +126,8 @@ func CSVConsumer(opts ...CSVOpt) Consumer {
 				}
 
 				v.Grow(len(csvWriter.records))
-				v.SetCap(len(csvWriter.records)) // in case Grow was unnessary, trim down the capacity
 				v.SetLen(len(csvWriter.records))
+				v.SetCap(len(csvWriter.records)) // in case Grow was unnessary, trim down the capacity
 				reflect.Copy(v, reflect.ValueOf(csvWriter.records))
 
 				return nil
